@@ -269,6 +269,7 @@ class ATCBasis:
         coefs = np.asarray(coefs, dtype=np.float64, order="C")
         atom2l0 = np.asarray(atom2l0, dtype=np.int32, order="C")
         self.natm = len(atom2l0) - 1
+        self._lmax = int(np.max(lmaxs)) if lmaxs.size > 0 else -1
         libcider.generate_atc_basis_set(
             ctypes.byref(atco),
             atom2l0.ctypes.data_as(ctypes.c_void_p),
@@ -395,13 +396,18 @@ class ATCBasis:
         assert p_uq.flags.c_contiguous
         assert p_uq.dtype == np.float64
         assert offset + nalpha <= stride
+        if theta_rlmq.shape[1] < (self._lmax + 1) * (self._lmax + 1):
+            # the C routines address theta_rlmq[r, l * l + m] for every shell
+            raise ValueError("theta_rlmq has too few spherical harmonics for basis")
         if rad2orb:
             assert loc.size == self.natm + 1
+            assert loc[0] >= 0 and np.all(loc[1:] >= loc[:-1]) and loc[-1] <= nrad
             fn = libcider.contract_rad_to_orb
             if zero_output:
                 p_uq[:, offset : offset + nalpha] = 0.0
         else:
             assert loc.size == nrad
+            assert nrad == 0 or (np.min(loc) >= 0 and np.max(loc) < self.natm)
             fn = libcider.contract_orb_to_rad
             if zero_output:
                 theta_rlmq[:] = 0.0
